@@ -286,7 +286,8 @@ def finish(report, program, explanation, not_decided, trusted=None,
     for f in report.findings:
         (old if f.key() in known_keys else new).append(f)
 
-    evdir = os.path.join(VERIF, "evidence")
+    evdir = os.environ.get("RIGVERIF_EVDIR") or os.path.join(VERIF,
+                                                             "evidence")
     os.makedirs(evdir, exist_ok=True)
     # remove stale violation files of this property
     for fn in os.listdir(evdir):
